@@ -43,7 +43,7 @@ lines += ["", "`vp check` request 1 (fresh copy, setup + every quick check once,
           "MANIFEST.json lists a `thorough_cmd` only for these; for the other checks the thorough configuration exists (`./vcheck <ID> --tier thorough`) but was only slice-tested and is not registered.", "",
           "Session of 2026-09-22 22:35 (30 minutes): thorough tiers of C58, C64 and C56 were started together (VERIF_SEED=1). C58 ran to the end "
           "(384 sessions, 6 095 deliveries, 90 distinct non-trivial outcomes, 0 violations, 449 s) and is now registered with a `thorough_cmd`. "
-          "C64 was stopped at 256 of 1 280 sessions when run beside the other two, then re-run alone to the end (1 280 sessions, 664 distinct non-trivial outcomes, 0 violations, 373 s) and is registered as well; C46-thorough (60 000 descriptors x 8 key subsets = 480 000 evaluations, 0 violations, 133 s) was then run to the end and registered too. C56 (about 7 of 75 cases per shard after 7 min, with 48 harness processes on 16 cores) "
+          "C64 was stopped at 256 of 1 280 sessions when run beside the other two, then re-run alone to the end (1 280 sessions, 664 distinct non-trivial outcomes, 0 violations, 373 s) and is registered as well; C46-thorough (60 000 descriptors x 8 key subsets = 480 000 evaluations, 0 violations, 133 s) was then run to the end and registered too, as was C47-thorough (154 221 evaluations, 0 unlisted violations, the listed known finding reported as KNOWN-FINDING, 211 s). C56 (about 7 of 75 cases per shard after 7 min, with 48 harness processes on 16 cores) "
           "was stopped by the operator for lack of time - it had produced no violation record; it stays registered with the quick tier only. "
           "Measured cost for planning a later run: C56-thorough about 40-60 min on 16 otherwise idle cores.", ""]
 lines += ["### 10.8 Independently seeded changes (kept under `/verif/seeded/<id>/`: patch.diff, demo.diff, meta.json)",
